@@ -108,20 +108,19 @@ Definition nd_all (hs : list holder) (Q : holder -> Prop) : Prop :=
 
 Definition dead (i : inst) : Prop := wp i = WExit /\ ip i = IExit /\ stopc i = true /\ donec i = true.
 
-(* what holds of the instance x.stop/x.done point to (index k), given mu, x.wg and the holders *)
+(* what holds of the instance x.stop/x.done point to (index k), given mu, x.wg and the holders.
+   The third conjunct is the user's side of the contract: a function that has not returned on its own (`early` false)
+   is still to be started or running for as long as its stop channel is open. *)
 Definition cur_ok (m : bool) (w : option nat) (hs : list holder) (k : nat) (i : inst) : Prop :=
   (ip i <> IReady -> isc i = Some k) /\
+  (donec i = true <-> ip i = IExit) /\
+  (early i = false -> stopc i = false -> ip i = IReady \/ ip i = IRun) /\
   match wp i with
-  | WLoop => m = false /\ stopc i = false /\ donec i = false /\ (ip i = IReady \/ ip i = IRun) /\
-             nd_all hs (fun hh => w = Some (hgen hh))
-  | WWait g => m = false /\ stopc i = false /\ donec i = false /\ (ip i = IReady \/ ip i = IRun) /\
-               nd_all hs (fun hh => w = Some (hgen hh) \/ hgen hh = g)
-  | WClose => m = true /\ stopc i = false /\ donec i = false /\ (ip i = IReady \/ ip i = IRun) /\
-              w = None /\ nd_all hs (fun _ => False)
-  | WRecv => m = true /\ stopc i = true /\ (donec i = true <-> ip i = IExit) /\
-             w = None /\ nd_all hs (fun _ => False)
-  | WClear => m = true /\ stopc i = true /\ donec i = true /\ ip i = IExit /\
-              w = None /\ nd_all hs (fun _ => False)
+  | WLoop => m = false /\ stopc i = false /\ nd_all hs (fun hh => w = Some (hgen hh))
+  | WWait g => m = false /\ stopc i = false /\ nd_all hs (fun hh => w = Some (hgen hh) \/ hgen hh = g)
+  | WClose => m = true /\ stopc i = false /\ w = None /\ nd_all hs (fun _ => False)
+  | WRecv => m = true /\ stopc i = true /\ w = None /\ nd_all hs (fun _ => False)
+  | WClear => m = true /\ stopc i = true /\ donec i = true /\ w = None /\ nd_all hs (fun _ => False)
   | WLock | WRecvL _ | WExit => False
   end.
 
@@ -195,53 +194,51 @@ Proof.
   destruct (wp i) eqn:Ewp.
   8: discriminate.
   all: destruct (live_is_current s k i HI Hn) as (Ex & Hlen & Hok); [left; rewrite Ewp; discriminate|].
-  all: destruct Hok as (Hisc & Hok); rewrite Ewp in Hok.
+  all: destruct Hok as (Hisc & Hdi & Hct & Hok); rewrite Ewp in Hok.
   - (* WLoop *)
-    destruct Hok as (Hm & Hsc & Hdc & Hip & Hnd). rewrite Hm in Hs.
+    destruct Hok as (Hm & Hsc & Hnd). rewrite Hm in Hs.
     destruct (xwg s) as [g|] eqn:Exw; inversion Hs; subst s'; clear Hs.
     + rewrite (modi_some _ k _ i) by exact Hn.
       fin_cur HI Ex Hlt (set_wp (WWait g) i).
       * intros g0 H; discriminate.
-      * split; [exact Hisc|]. repeat split; auto.
+      * split; [exact Hisc|]. split; [exact Hdi|]. split; [exact Hct|]. repeat split; auto.
         intros hh Hin Hd. right. specialize (Hnd hh Hin Hd). cbn in Hnd. congruence.
     + rewrite (modi_some _ k _ i) by exact Hn.
       fin_cur HI Ex Hlt (set_wp WClose i).
       * intros g0 H; discriminate.
-      * split; [exact Hisc|]. repeat split; auto.
+      * split; [exact Hisc|]. split; [exact Hdi|]. split; [exact Hct|]. repeat split; auto.
         intros hh Hin Hd. specialize (Hnd hh Hin Hd). cbn in Hnd. discriminate.
   - (* WWait g *)
-    destruct Hok as (Hm & Hsc & Hdc & Hip & Hnd).
+    destruct Hok as (Hm & Hsc & Hnd).
     destruct (nth g (gens s) 0 =? 0) eqn:Ez; [|discriminate].
     apply Nat.eqb_eq in Ez. inversion Hs; subst s'; clear Hs. cbn [f_norecheck faithful].
     rewrite (modi_some _ k _ i) by exact Hn.
-    destruct HI as (HP & HG & HW & HD & HC) eqn:EHI. clear EHI.
-    fin_cur (conj HP (conj HG (conj HW (conj HD HC)))) Ex Hlt (set_wp WLoop i).
-    split; [exact Hisc|]. repeat split; auto.
+    pose proof HI as (HP & HG & HW & HD & HC).
+    fin_cur HI Ex Hlt (set_wp WLoop i).
+    split; [exact Hisc|]. split; [exact Hdi|]. split; [exact Hct|]. repeat split; auto.
     intros hh Hin Hd. destruct (Hnd hh Hin Hd) as [E|E]; [exact E|].
     exfalso. rewrite HG in Ez. pose proof (cnt_zero_done g _ hh Ez Hin E). congruence.
   - (* WLock *) contradiction.
   - (* WClose *)
-    destruct Hok as (Hm & Hsc & Hdc & Hip & Hw & Hnd).
+    destruct Hok as (Hm & Hsc & Hw & Hnd).
     rewrite Ex, Hn, Hsc in Hs. cbn [f_early faithful] in Hs. inversion Hs; subst s'; clear Hs.
     rewrite (modi_some s k _ i) by exact Hn.
     erewrite (modi_some _ k _ (set_stopc i)) by (cbn; apply nth_error_upd_eq; exact Hlt).
     cbn [insts st_insts]. rewrite upd_upd.
     fin_cur HI Ex Hlt (set_wp WRecv (set_stopc i)).
     + rewrite Hw. intros g0 H; discriminate.
-    + split; [exact Hisc|]. repeat split; auto.
-      * cbn. intros E. rewrite Hdc in E. discriminate.
-      * cbn. intros E. destruct Hip as [E'|E']; rewrite E' in E; discriminate.
+    + split; [exact Hisc|]. split; [exact Hdi|]. split; [intros _ E; discriminate E|]. repeat split; auto.
   - (* WRecv *)
-    destruct Hok as (Hm & Hsc & Hdi & Hw & Hnd).
+    destruct Hok as (Hm & Hsc & Hw & Hnd).
     rewrite Ex, Hn in Hs. destruct (donec i) eqn:Edc; [|discriminate].
     inversion Hs; subst s'; clear Hs.
     rewrite (modi_some s k _ i) by exact Hn.
     fin_cur HI Ex Hlt (set_wp WClear i).
     + rewrite Hw. intros g0 H; discriminate.
-    + split; [exact Hisc|]. repeat split; auto. apply Hdi. reflexivity.
+    + split; [exact Hisc|]. split; [cbn; rewrite Edc; exact Hdi|]. split; [exact Hct|]. repeat split; auto.
   - (* WRecvL *) contradiction.
   - (* WClear *)
-    destruct Hok as (Hm & Hsc & Hdc & Hip & Hw & Hnd).
+    destruct Hok as (Hm & Hsc & Hdc & Hw & Hnd).
     inversion Hs; subst s'; clear Hs.
     rewrite (modi_some _ k _ i) by exact Hn.
     destruct HI as (HP & HG & HW & HD & HC).
@@ -249,10 +246,13 @@ Proof.
     split; [exact HP|]. split; [exact HG|]. split; [exact HW|]. split.
     + intros j i0 Hj _. destruct (Nat.eq_dec k j) as [E|NE].
       * subst j. rewrite nth_error_upd_eq in Hj by exact Hlt. inversion Hj; subst i0.
-        unfold dead; cbn. auto.
+        unfold dead; cbn. repeat split; auto. apply Hdi. exact Hdc.
       * rewrite nth_error_upd_neq in Hj by exact NE. apply (HD j i0 Hj). congruence.
     + auto.
 Qed.
+
+(* the finite part of cur_ok after a step of the do goroutine: case analysis on the watcher pc *)
+Ltac wp_cases Hok := cbn; destruct (wp _); try contradiction; intuition (try discriminate; try congruence).
 
 Lemma Inv_i s k s' : Inv s -> i_step s k = Some s' -> Inv s'.
 Proof.
@@ -262,13 +262,14 @@ Proof.
   destruct (ip i) eqn:Eip.
   5: discriminate.
   all: destruct (live_is_current s k i HI Hn) as (Ex & Hlen & Hok); [right; rewrite Eip; discriminate|].
-  all: destruct Hok as (Hisc & Hok).
+  all: destruct Hok as (Hisc & Hdi & Hct & Hok); rewrite Eip in Hdi, Hct.
+  all: assert (Hdc : donec i = false)
+         by (destruct (donec i); [destruct Hdi as (Hdi & _); specialize (Hdi eq_refl); discriminate|reflexivity]).
   - (* IReady: the goroutine starts and reads x.stop *)
     inversion Hs; subst s'; clear Hs. rewrite (modi_some s k _ i) by exact Hn.
     fin_cur HI Ex Hlt (set_ip IRun (xinst s) i).
     + apply HI.
-    + split; [intros _; exact Ex|].
-      cbn; rewrite Eip in Hok; destruct (wp i); try contradiction; intuition (try discriminate; try congruence).
+    + split; [intros _; exact Ex|]. split; [cbn; rewrite Hdc; split; discriminate|]. split; [auto|]. exact Hok.
   - (* IRun: the function sees stop closed *)
     assert (Hk : isc i = Some k) by (apply Hisc; rewrite Eip; discriminate).
     rewrite Hk, Hn in Hs.
@@ -276,34 +277,49 @@ Proof.
     inversion Hs; subst s'; clear Hs. rewrite (modi_some s k _ i) by exact Hn.
     fin_cur HI Ex Hlt (set_ip ISaw (Some k) i).
     + apply HI.
-    + split; [intros _; reflexivity|].
-      cbn; rewrite Eip in Hok; destruct (wp i); try contradiction; intuition (try discriminate; try congruence).
+    + split; [intros _; reflexivity|]. split; [cbn; rewrite Hdc; split; discriminate|].
+      split; [cbn; rewrite Esc; intros _ E; discriminate E|]. cbn. rewrite Esc. exact Hok.
   - (* ISaw: the function returns *)
     inversion Hs; subst s'; clear Hs. rewrite (modi_some s k _ i) by exact Hn.
     fin_cur HI Ex Hlt (set_ip IRet (isc i) i).
     + apply HI.
-    + split; [intros _; apply Hisc; rewrite Eip; discriminate|].
-      cbn; rewrite Eip in Hok; destruct (wp i); try contradiction; intuition (try discriminate; try congruence).
+    + split; [intros _; apply Hisc; rewrite Eip; discriminate|]. split; [cbn; rewrite Hdc; split; discriminate|].
+      split; [|exact Hok]. intros E1 E2. destruct (Hct E1 E2); discriminate.
   - (* IRet: close(x.done) *)
-    rewrite Ex, Hn in Hs.
-    assert (Hdc : donec i = false).
-    { destruct (wp i); try contradiction; rewrite Eip in Hok; intuition (try discriminate).
-      destruct (donec i); auto. assert (IRet = IExit) by auto. discriminate. }
-    rewrite Hdc in Hs. inversion Hs; subst s'; clear Hs.
+    rewrite Ex, Hn, Hdc in Hs. inversion Hs; subst s'; clear Hs.
     rewrite (modi_some s k _ i) by exact Hn.
     erewrite (modi_some _ k _ (set_donec i)) by (cbn; apply nth_error_upd_eq; exact Hlt).
     cbn [insts st_insts]. rewrite upd_upd.
     fin_cur HI Ex Hlt (set_ip IExit (isc i) (set_donec i)).
     + apply HI.
-    + split; [intros _; apply Hisc; rewrite Eip; discriminate|].
-      cbn; rewrite Eip in Hok; destruct (wp i); try contradiction; intuition (try discriminate; try congruence).
+    + split; [intros _; apply Hisc; rewrite Eip; discriminate|]. split; [split; reflexivity|].
+      split; [intros E1 E2; destruct (Hct E1 E2); discriminate|].
+      cbn. destruct (wp i); try contradiction; intuition (try discriminate; try congruence).
+Qed.
+
+(* the function returns on its own while stop is open: allowed, the instance stays current until the watcher clears it *)
+Lemma Inv_ie s k s' : Inv s -> i_early_step s k = Some s' -> Inv s'.
+Proof.
+  intros HI Hs. unfold i_early_step in Hs.
+  destruct (nth_error (insts s) k) as [i|] eqn:Hn; [|discriminate].
+  assert (Hlt : k < length (insts s)) by (eapply nth_error_some_lt; eauto).
+  destruct (ip i) eqn:Eip; try discriminate.
+  destruct (live_is_current s k i HI Hn) as (Ex & Hlen & Hok); [right; rewrite Eip; discriminate|].
+  destruct Hok as (Hisc & Hdi & Hct & Hok); rewrite Eip in Hdi.
+  assert (Hdc : donec i = false)
+    by (destruct (donec i); [destruct Hdi as (Hdi & _); specialize (Hdi eq_refl); discriminate|reflexivity]).
+  inversion Hs; subst s'; clear Hs. rewrite (modi_some s k _ i) by exact Hn.
+  fin_cur HI Ex Hlt (set_early i).
+  - apply HI.
+  - split; [intros _; apply Hisc; rewrite Eip; discriminate|]. split; [cbn; rewrite Hdc; split; discriminate|].
+    split; [intros E; discriminate E|]. exact Hok.
 Qed.
 
 Lemma cur_ok_mono m w hs hs' k i :
   (forall y, In y hs' -> hdone y = false -> In y hs) -> cur_ok m w hs k i -> cur_ok m w hs' k i.
 Proof.
-  intros Hsub (Hisc & Hok). split; [exact Hisc|]. unfold nd_all in *.
-  destruct (wp i); try contradiction; intuition eauto.
+  intros Hsub (Hisc & Hdi & Hct & Hok). split; [exact Hisc|]. split; [exact Hdi|]. split; [exact Hct|].
+  unfold nd_all in *. destruct (wp i); try contradiction; intuition eauto.
 Qed.
 
 Lemma Inv_done s h s' : Inv s -> done_step s h = Some s' -> Inv s'.
@@ -350,13 +366,13 @@ Lemma cur_ok_do w g hs k i :
   (w = Some g \/ w = None) ->
   cur_ok false w hs k i -> cur_ok false (Some g) (hs ++ [{| hgen := g; hdone := false |}]) k i.
 Proof.
-  intros Hw (Hisc & Hok). split; [exact Hisc|]. unfold nd_all in *.
-  destruct (wp i); try contradiction.
-  - destruct Hok as (H1 & H2 & H3 & H4 & H5). repeat split; auto.
+  intros Hw (Hisc & Hdi & Hct & Hok). split; [exact Hisc|]. split; [exact Hdi|]. split; [exact Hct|].
+  unfold nd_all in *. destruct (wp i); try contradiction.
+  - destruct Hok as (H1 & H2 & H5). repeat split; auto.
     intros hh Hin Hd. apply in_app_or in Hin. destruct Hin as [Hin|[E|[]]].
     + specialize (H5 hh Hin Hd). destruct Hw as [E|E]; rewrite E in H5; [exact H5|discriminate].
     + subst hh. reflexivity.
-  - destruct Hok as (H1 & H2 & H3 & H4 & H5). repeat split; auto.
+  - destruct Hok as (H1 & H2 & H5). repeat split; auto.
     intros hh Hin Hd. apply in_app_or in Hin. destruct Hin as [Hin|[E|[]]].
     + destruct (H5 hh Hin Hd) as [H|H]; [|right; exact H].
       left. destruct Hw as [E|E]; rewrite E in H; [exact H|discriminate].
@@ -399,6 +415,7 @@ Proof.
     split; [rewrite app_length; cbn; lia|].
     exists new_inst. split; [apply nth_error_app_last|].
     split; [intros H; exfalso; apply H; reflexivity|]. cbn.
+    split; [split; discriminate|]. split; [auto|].
     repeat split; auto.
     intros hh Hin Hd. apply in_app_or in Hin. destruct Hin as [Hin|[E|[]]].
     + exfalso. exact (Hnd hh Hin Hd).
@@ -408,11 +425,12 @@ Qed.
 Theorem Inv_step s l s' : Inv s -> step faithful s l = Some s' -> Inv s'.
 Proof.
   intros HI Hs. unfold step in Hs. destruct (panicked s); [discriminate|].
-  destruct l as [|h|k|k].
+  destruct l as [|h|k|k|k].
   - eapply Inv_do; eauto.
   - eapply Inv_done; eauto.
   - eapply Inv_w; eauto.
   - eapply Inv_i; eauto.
+  - eapply Inv_ie; eauto.
 Qed.
 
 Lemma Inv_step_or_stay s l : Inv s -> Inv (step_or_stay faithful s l).
@@ -480,22 +498,28 @@ Theorem held_means_running s :
   reachable s ->
   forall h hh, nth_error (holders s) h = Some hh -> hdone hh = false ->
   exists k ik, xinst s = Some k /\ nth_error (insts s) k = Some ik /\
-               stopc ik = false /\ donec ik = false /\
-               (ip ik = IReady \/ (ip ik = IRun /\ isc ik = Some k)) /\
-               (wp ik = WLoop \/ exists g, wp ik = WWait g).
+               stopc ik = false /\
+               (wp ik = WLoop \/ exists g, wp ik = WWait g) /\
+               (ip ik <> IReady -> isc ik = Some k) /\
+               (early ik = false -> donec ik = false /\ (ip ik = IReady \/ ip ik = IRun)).
 Proof.
   intros HR h hh Hn Hd. apply reachable_Inv in HR. destruct HR as (HP & HG & HW & HD & HC).
   apply nth_error_In in Hn.
   destruct (xinst s) as [k|].
-  - destruct HC as (Hlen & i & Hi & Hisc & Hok). exists k, i. split; [reflexivity|]. split; [exact Hi|].
-    assert (Hip : ip i = IReady \/ ip i = IRun -> ip i = IReady \/ (ip i = IRun /\ isc i = Some k)).
-    { intros [E|E]; [left; exact E|right; split; [exact E|apply Hisc; rewrite E; discriminate]]. }
+  - destruct HC as (Hlen & i & Hi & Hisc & Hdi & Hct & Hok). exists k, i. split; [reflexivity|]. split; [exact Hi|].
+    assert (Hgoal : stopc i = false -> (wp i = WLoop \/ exists g, wp i = WWait g) ->
+              stopc i = false /\ (wp i = WLoop \/ exists g, wp i = WWait g) /\ (ip i <> IReady -> isc i = Some k) /\
+              (early i = false -> donec i = false /\ (ip i = IReady \/ ip i = IRun))).
+    { intros Hs Hw. split; [exact Hs|]. split; [exact Hw|]. split; [exact Hisc|]. intros He. split.
+      - destruct (donec i); [|reflexivity]. destruct Hdi as (Hdi & _). specialize (Hdi eq_refl).
+        destruct (Hct He Hs) as [E|E]; rewrite E in Hdi; discriminate.
+      - apply Hct; assumption. }
     destruct (wp i) eqn:Ewp; try contradiction.
-    + destruct Hok as (H1 & H2 & H3 & H4 & H5). repeat split; auto.
-    + destruct Hok as (H1 & H2 & H3 & H4 & H5). repeat split; eauto.
-    + destruct Hok as (_ & _ & _ & _ & _ & Hnd). exfalso. exact (Hnd hh Hn Hd).
+    + destruct Hok as (H1 & H2 & H5). apply Hgoal; auto.
+    + destruct Hok as (H1 & H2 & H5). apply Hgoal; eauto.
+    + destruct Hok as (_ & _ & _ & Hnd). exfalso. exact (Hnd hh Hn Hd).
+    + destruct Hok as (_ & _ & _ & Hnd). exfalso. exact (Hnd hh Hn Hd).
     + destruct Hok as (_ & _ & _ & _ & Hnd). exfalso. exact (Hnd hh Hn Hd).
-    + destruct Hok as (_ & _ & _ & _ & _ & Hnd). exfalso. exact (Hnd hh Hn Hd).
   - destruct HC as (_ & _ & Hnd). exfalso. exact (Hnd hh Hn Hd).
 Qed.
 
@@ -532,7 +556,9 @@ Lemma stopc_step s l s' k ik ik' :
 Proof.
   intros Hs Hn Hn' Ho Hc. unfold step in Hs. destruct (panicked s); [discriminate|].
   assert (Hlt : k < length (insts s)) by (eapply nth_error_some_lt; eauto).
-  destruct l as [|h|kw|ki].
+  destruct l as [|h|kw|ki|ke].
+  5: { exfalso. unfold i_early_step in Hs. destruct (nth_error (insts s) ke) as [ii|] eqn:Hi; [|discriminate].
+       destruct (ip ii); try discriminate. inversion Hs; subst s'; same Hn. }
   - exfalso. unfold do_step in Hs. destruct (mu s); [discriminate|]. cbn [f_nonewgen faithful andb] in Hs.
     destruct (xinst s); destruct (xwg s); inversion Hs; subst s'; cbn in Hn';
       rewrite ?nth_error_app1 in Hn' by exact Hlt; rewrite Hn in Hn'; inversion Hn'; subst; congruence.
@@ -586,7 +612,7 @@ Proof.
   destruct (stopc_step s l s' k ik ik' Hs Hn Hn' Ho Hc) as (kw & iw & El & Hw & Ewp & Ex).
   destruct (live_is_current s kw iw HR Hw) as (Ex' & _ & _ & Hok); [left; rewrite Ewp; discriminate|].
   assert (kw = k) by congruence. subst kw. rewrite Hn in Hw. inversion Hw; subst iw.
-  rewrite Ewp in Hok. destruct Hok as (Hm & _ & _ & _ & _ & Hnd).
+  destruct Hok as (_ & _ & Hok). rewrite Ewp in Hok. destruct Hok as (Hm & _ & _ & Hnd).
   repeat split; auto. intros hh Hin. destruct (hdone hh) eqn:Hd; [reflexivity|]. exfalso. exact (Hnd hh Hin Hd).
 Qed.
 
@@ -600,7 +626,7 @@ Theorem do_blocked_while_stopping s :
   step faithful s LDo = None.
 Proof.
   intros HR k ik Ex Hn Hst. apply reachable_Inv in HR. destruct HR as (HP & _ & _ & _ & HC).
-  rewrite Ex in HC. destruct HC as (_ & i & Hi & _ & Hok). rewrite Hn in Hi. inversion Hi; subst i.
+  rewrite Ex in HC. destruct HC as (_ & i & Hi & _ & _ & _ & Hok). rewrite Hn in Hi. inversion Hi; subst i.
   assert (Hm : mu s = true).
   { destruct (wp ik); try contradiction; destruct Hst as [E|E]; try discriminate; try (destruct Hok as (H1 & _); exact H1);
       destruct Hok as (_ & H2 & _); congruence. }
@@ -611,7 +637,8 @@ Theorem do_starts_fresh_instance s s' :
   reachable s -> step faithful s LDo = Some s' ->
   exists k ik g,
     xinst s' = Some k /\ nth_error (insts s') k = Some ik /\
-    stopc ik = false /\ donec ik = false /\ (ip ik = IReady \/ (ip ik = IRun /\ isc ik = Some k)) /\
+    stopc ik = false /\
+    (early ik = false -> donec ik = false /\ (ip ik = IReady \/ ip ik = IRun)) /\
     holders s' = holders s ++ [{| hgen := g; hdone := false |}] /\
     match xinst s with
     | Some k0 => k = k0 /\ insts s' = insts s
@@ -632,7 +659,7 @@ Proof.
     destruct (xinst s); destruct (xwg s); inversion Hs; subst s'; cbn; eauto. }
   destruct Hshape as (g & Hh & Hx).
   destruct (held_means_running s' HR' (length (holders s)) {| hgen := g; hdone := false |})
-    as (k & ik & Ex' & Hn' & Hso & Hdo & Hip & _).
+    as (k & ik & Ex' & Hn' & Hso & _ & _ & Hct).
   { rewrite Hh. apply nth_error_app_last. }
   { reflexivity. }
   exists k, ik, g. repeat (split; [assumption|]).
@@ -657,7 +684,7 @@ Theorem every_instance_stopped s :
 Proof.
   intros HR HQ. apply reachable_Inv in HR. destruct HR as (HP & HG & HW & HD & HC).
   destruct (xinst s) as [k|] eqn:Ex.
-  - exfalso. destruct HC as (Hlen & i & Hi & Hisc & Hok).
+  - exfalso. destruct HC as (Hlen & i & Hi & Hisc & Hdi & Hct & Hok).
     assert (Hen : exists l, l <> LDo /\ step faithful s l <> None).
     { destruct (wp i) eqn:Ewp; try contradiction.
       - exists (LW k). split; [discriminate|]. unfold step, w_step. rewrite HP, Hi, Ewp.
@@ -669,7 +696,7 @@ Proof.
           destruct (nth (hgen hh) (gens s) 0); discriminate.
       - exists (LW k). split; [discriminate|]. unfold step, w_step. rewrite HP, Hi, Ewp, Ex, Hi.
         destruct Hok as (_ & Hsc & _). rewrite Hsc. cbn. discriminate.
-      - destruct Hok as (_ & Hsc & Hdi & _).
+      - destruct Hok as (_ & Hsc & _).
         destruct (donec i) eqn:Edc.
         + exists (LW k). split; [discriminate|]. unfold step, w_step. rewrite HP, Hi, Ewp, Ex, Hi, Edc. discriminate.
         + exists (LI k). split; [discriminate|]. unfold step, i_step. rewrite HP, Hi.
@@ -739,14 +766,17 @@ Qed.
 
 Arguments measure : simpl never.
 
-Ltac wts Ewp := unfold inst_weight in *; cbn [wp ip set_wp set_ip set_stopc set_donec] in *; rewrite ?Ewp in *;
+Ltac wts Ewp := unfold inst_weight in *; cbn [wp ip set_wp set_ip set_stopc set_donec set_early] in *; rewrite ?Ewp in *;
                 cbn [wweight iweight wgw] in *.
 
 Theorem measure_decreases fl s l s' : step fl s l = Some s' -> l <> LDo -> measure s' < measure s.
 Proof.
   intros Hs Hl. unfold step in Hs. destruct (panicked s) eqn:HP; [discriminate|].
   pose proof (measure_pos s HP) as Hpos.
-  destruct l as [|h|k|k]; [contradiction| | |].
+  destruct l as [|h|k|k|k]; [contradiction| | | |].
+  4: { unfold i_early_step in Hs. destruct (nth_error (insts s) k) as [i|] eqn:Hn; [|discriminate].
+       destruct (ip i) eqn:Eip; try discriminate. inversion Hs; subst s'; clear Hs.
+       pose proof (measure_modi s k set_early i HP Hn) as H1. wts Eip. lia. }
   - unfold done_step in Hs. destruct (nth_error (holders s) h) as [hh|] eqn:Hn; [|discriminate].
     destruct (hdone hh) eqn:Hd; [discriminate|].
     destruct (nth (hgen hh) (gens s) 0); inversion Hs; subst s'; clear Hs.
@@ -825,7 +855,8 @@ Definition held_okb (s : st) : bool :=
   if held s then
     match xinst s with
     | Some k => match nth_error (insts s) k with
-                | Some ik => negb (stopc ik) && negb (donec ik) && (match ip ik with IReady | IRun => true | _ => false end)
+                | Some ik => negb (stopc ik) &&
+                             (early ik || (negb (donec ik) && (match ip ik with IReady | IRun => true | _ => false end)))
                 | None => false
                 end
     | None => false
@@ -840,14 +871,15 @@ Proof.
   - unfold held_okb. destruct (held s) eqn:Eh; [|reflexivity].
     unfold held in Eh. apply existsb_exists in Eh. destruct Eh as (hh & Hin & Hd).
     apply In_nth_error in Hin. destruct Hin as (h & Hn).
-    destruct (held_means_running s HR h hh Hn) as (k & ik & Ex & Hi & Hso & Hdo & Hip & _).
+    destruct (held_means_running s HR h hh Hn) as (k & ik & Ex & Hi & Hso & _ & _ & Hct).
     { destruct (hdone hh); [discriminate|reflexivity]. }
-    rewrite Ex, Hi, Hso, Hdo. destruct Hip as [E|[E _]]; rewrite E; reflexivity.
+    rewrite Ex, Hi, Hso. destruct (early ik); [reflexivity|].
+    destruct (Hct eq_refl) as (Hdo & [E|E]); rewrite Hdo, E; reflexivity.
   - unfold single_okb. apply Nat.leb_le. apply (at_most_one_alive s HR).
 Qed.
 
 (* ... and false of some reachable state of each defective variant (same step function, one flag set) *)
-Definition early : flags := {| f_early := true; f_norecheck := false; f_nonewgen := false |}.
+Definition early_unlock : flags := {| f_early := true; f_norecheck := false; f_nonewgen := false |}.
 Definition norecheck : flags := {| f_early := false; f_norecheck := true; f_nonewgen := false |}.
 Definition nonewgen : flags := {| f_early := false; f_norecheck := false; f_nonewgen := true |}.
 
@@ -856,7 +888,7 @@ Definition nonewgen : flags := {| f_early := false; f_norecheck := false; f_none
 Definition sched_overlap : list label := [LDo; LW 0; LI 0; LDone 0; LW 0; LW 0; LW 0; LDo; LI 1].
 
 Theorem early_unlock_two_instances_refuted :
-  exists sched, countb running (insts (run early init sched)) = 2 /\ single_okb (run early init sched) = false.
+  exists sched, countb running (insts (run early_unlock init sched)) = 2 /\ single_okb (run early_unlock init sched) = false.
 Proof. exists sched_overlap. vm_compute. auto. Qed.
 
 (* Do; watcher takes WaitGroup 0 and waits; a second Do publishes WaitGroup 1; first done; the watcher wakes and,
@@ -906,6 +938,20 @@ Example restart_example :
   map stopc (insts s) = [true; false] /\ map isc (insts s) = [Some 0; Some 1] /\ held_okb s = true.
 Proof. vm_compute. repeat split; reflexivity. Qed.
 
+(* the function returns on its own while two holders are outstanding: stop stays open (and Do still joins the same
+   instance) until the last done; then the watcher closes stop, clears, and a later Do starts a fresh instance *)
+Definition sched_early : list label := [LDo; LW 0; LI 0; LDo; LIE 0; LI 0; LDone 0; LW 0; LW 0; LDo].
+Example early_return_example :
+  let s := run faithful init sched_early in
+  let s2 := run faithful s [LDone 1; LDone 2; LW 0; LW 0; LW 0; LW 0; LW 0] in
+  let s3 := run faithful s2 [LW 0; LW 0; LDo; LI 1] in
+  (map ip (insts s), map early (insts s), map stopc (insts s), map donec (insts s), length (holders s), xinst s)
+    = ([IExit], [true], [false], [true], 3, Some 0) /\
+  held_okb s = true /\
+  (map stopc (insts s2), map wp (insts s2), mu s2) = ([true], [WRecv], true) /\
+  (map ip (insts s3), map stopc (insts s3), xinst s3) = ([IExit; IRun], [true; false], Some 1).
+Proof. vm_compute. repeat split; reflexivity. Qed.
+
 (* a quiescent state after two generations of instances: the harness-level view *)
 Example kstep_example :
   let '(k1, o1) := kstep kinit KDo in
@@ -915,8 +961,8 @@ Example kstep_example :
   let '(k5, o5) := kstep k4 (KDone 1) in
   let '(k6, o6) := kstep k5 (KRelease 1) in
   [o1; o2; o3; o4; o5; o6] =
-  [[1; 1; 0; 0; 2; 0; 0]; [1; 1; 1; 0; 2; 0; 0]; [1; 1; 1; 0; 3; 1; 0]; [2; 2; 1; 1; 2; 0; 0]; [2; 2; 2; 1; 2; 0; 0];
-   [2; 2; 2; 2; 0; 0; 0]].
+  [[1; 1; 0; 0; 2; 0; 0; 0]; [1; 1; 1; 0; 2; 0; 1; 0]; [1; 1; 1; 0; 3; 1; 1; 0]; [2; 2; 1; 1; 2; 0; 1; 0];
+   [2; 2; 2; 1; 2; 0; 2; 0]; [2; 2; 2; 2; 0; 0; 2; 0]].
 Proof. vm_compute. reflexivity. Qed.
 
 (* ------------------------------------------------------------------------------------------------------------ *)
@@ -961,9 +1007,11 @@ Qed.
 
 Theorem kstep_reachable k o : reachable (ws k) -> reachable (ws (fst (kstep k o))).
 Proof.
-  intros HR. unfold kstep. cbn [fst]. destruct o as [|h|i].
+  intros HR. unfold kstep. cbn [fst]. destruct o as [|h|i|i].
   - apply settle_reachable. exact HR.
   - apply settle_reachable. apply step_or_stay_reachable. exact HR.
   - destruct (nth_error (insts (ws k)) i) as [ii|]; [|exact HR].
     destruct (ip ii); try exact HR. apply settle_reachable. apply step_or_stay_reachable. exact HR.
+  - destruct (step faithful (ws k) (LIE i)) as [s'|] eqn:E; [|exact HR].
+    apply settle_reachable. eapply reachable_step; eauto.
 Qed.
